@@ -358,6 +358,7 @@ inline int driver_main(int argc, char **argv) {
     memset(shm, 0, sizeof(WorkerShm) * 64);
     std::string base = json.empty() ? "/tmp/seqx" : json;
     std::map<std::string, ViolRec> viol;
+    std::set<std::string> fatal_cases;
     std::vector<std::string> samples;
     std::unordered_set<uint64_t> states, outcomes;
     uint64_t cases = 0, transitions = 0, nontrivial = 0;
@@ -428,6 +429,7 @@ inline int driver_main(int argc, char **argv) {
             if (samples.size() < 6) samples.push_back(f[2]);
             return;
         }
+        if (f[0] == "F") fatal_cases.insert(f[2]);
         ViolRec &v = viol[f[1]];
         if (v.count == 0 || f[2].size() < v.c.size()) {
             v.sig = f[1];
@@ -477,9 +479,9 @@ inline int driver_main(int argc, char **argv) {
             // died inside a case
             if (shm[w].in_case) {
                 std::string cs = shm[w].cur_case;
-                bool have = false;
-                for (auto &kv : viol)
-                    if (kv.second.c == cs) have = true;
+                for (char &c : cs)
+                    if (c == '\t' || c == '\n') c = ' ';
+                bool have = fatal_cases.count(cs) > 0;
                 if (!have) {
                     // death without a report from our hooks (e.g. UBSan): take the first line of the worker log
                     std::string logp = base + ".log." + std::to_string(w), first = "process died";
